@@ -572,14 +572,17 @@ class ReferenceProperty(Property):
         generics = self.generics
         specifics = self.specifics
         auth_type = self.auth_type
-        if allow_custom and auth_type == self._WHITELIST and generics:
+        if allow_custom and auth_type == self._WHITELIST and generics \
+                and not is_object(obj_type, self.spec_version):
             # If allowing customization and using a whitelist, and if generic
             # "category" types were given, we need to allow custom object types
             # of those categories.  Unless registered, it's impossible to know
             # whether a given type is within a given category.  So we take a
             # permissive approach and allow any type which is not known to be
             # in the wrong category.  I.e. flip the whitelist set to a
-            # blacklist of a complementary set.
+            # blacklist of a complementary set.  Registered types don't need
+            # (and must not get) this benefit of the doubt: their category is
+            # known, so the whitelist applies to them as is.
             auth_type = self._BLACKLIST
             generics = set(STIXTypeClass) - generics
             blacklist_exceptions, specifics = specifics, blacklist_exceptions
